@@ -421,7 +421,9 @@ if __name__ == '__main__':
     sys.exit(C.standard_check(
         'C16', sys.argv,
         gen_scripts=['gen_c16.py'], modules=['Alpaqa.Props.C16'], driver='drv_c16',
-        extra_sources=['Alpaqa/Model/C16.lean', 'Alpaqa/Gen/C16.lean', 'Driver/C16.lean'],
+        extra_sources=['Alpaqa/Model/C16.lean', 'Alpaqa/Gen/C16.lean', 'Driver/C16.lean',
+                       'Alpaqa/Proofs/C16Inv.lean', 'Alpaqa/Proofs/C16Ids.lean',
+                       'Alpaqa/Proofs/C16Ops.lean', 'Alpaqa/Proofs/C16Step.lean'],
         harness_name='c16',
         harness_sources=[os.path.join(C.VERIF, 'harness', 'c16.cpp')] +
         C.repo_lib_sources(['demangled-typename']),
